@@ -398,26 +398,47 @@ func runC17(c *Ctx) {
 					okID = nLong > 0 && !bad
 				}
 			case `"equivalentId"`:
-				for v := range backSlice(mu.Value) {
-					ap, isC := v.(*ssa.Call)
-					if !isC {
-						continue
-					}
-					if bi, isB := ap.Call.Value.(*ssa.Builtin); !isB || bi.Name() != "append" {
-						continue
-					}
-					if _, l := live[ap.Block()]; !l {
-						continue
-					}
-					els, okV := c.varargValues(ap.Call.Args[1])
-					if okV && len(els) == 1 && c.concatForm(els[0], env) == short {
-						for _, ce := range c.condsOf(ap.Block()) {
-							if ce == `($4 != "")=true` {
-								okEq = true
+				// the list is built by appends in this function or in an unexported helper that hands the list back
+				var scan func(fn *ssa.Function, v ssa.Value, fenv, penv Env, liveB map[*ssa.BasicBlock]*ssa.BasicBlock, d int)
+				scan = func(fn *ssa.Function, v ssa.Value, fenv, penv Env, liveB map[*ssa.BasicBlock]*ssa.BasicBlock, d int) {
+					for bv := range backSlice(v) {
+						ap, isC := bv.(*ssa.Call)
+						if !isC || ap.Parent() != fn {
+							continue
+						}
+						if _, l := liveB[ap.Block()]; !l {
+							continue
+						}
+						if g := ap.Call.StaticCallee(); g != nil && inModule(g) && g.Blocks != nil && g.Object() != nil && !g.Object().Exported() && d < 2 {
+							genv := c.concatEnv(&ap.Call, g, fenv)
+							gl := reach(g.Blocks[0], c.pruned(g, genv))
+							gp := c.calleeEnv(&ap.Call, g, penv)
+							for _, r := range returnsOf(g) {
+								if _, l := gl[r.Block()]; l && len(r.Results) > 0 {
+									old := c.phiEdgeLive
+									c.phiEdgeLive = func(phi *ssa.Phi, i int) bool { _, l := gl[phi.Block().Preds[i]]; return l }
+									scan(g, r.Results[0], genv, gp, gl, d+1)
+									c.phiEdgeLive = old
+								}
 							}
+							continue
+						}
+						if bi, isB := ap.Call.Value.(*ssa.Builtin); !isB || bi.Name() != "append" {
+							continue
+						}
+						els, okV := c.varargValues(ap.Call.Args[1])
+						if okV && len(els) == 1 && c.concatForm(els[0], fenv) == short {
+							c.condEnv = penv
+							for _, ce := range c.condsOf(ap.Block()) {
+								if ce == `($4 != "")=true` {
+									okEq = true
+								}
+							}
+							c.condEnv = nil
 						}
 					}
 				}
+				scan(f, mu.Value, env, nil, live, 0)
 			}
 		})
 		c.phiEdgeLive = nil
@@ -563,7 +584,7 @@ func (c *Ctx) canonCond(cond ssa.Value, truth bool) string {
 		}
 		switch cl.Call.StaticCallee().String() {
 		case "strings.Index", "strings.IndexByte", "bytes.Index", "bytes.IndexByte":
-			return "contains(" + c.Path(cl.Call.Args[0], nil) + "," + c.Path(cl.Call.Args[1], nil) + ")", true
+			return "contains(" + c.Path(cl.Call.Args[0], c.condEnv) + "," + c.Path(cl.Call.Args[1], c.condEnv) + ")", true
 		}
 		return "", false
 	}
@@ -572,7 +593,7 @@ func (c *Ctx) canonCond(cond ssa.Value, truth bool) string {
 		if g := x.Call.StaticCallee(); g != nil && len(x.Call.Args) == 2 {
 			switch g.String() {
 			case "strings.Contains", "bytes.Contains", "strings.ContainsRune":
-				return fmt.Sprintf("contains(%s,%s)=%v", c.Path(x.Call.Args[0], nil), c.Path(x.Call.Args[1], nil), truth)
+				return fmt.Sprintf("contains(%s,%s)=%v", c.Path(x.Call.Args[0], c.condEnv), c.Path(x.Call.Args[1], c.condEnv), truth)
 			}
 		}
 	case *ssa.BinOp:
@@ -581,7 +602,7 @@ func (c *Ctx) canonCond(cond ssa.Value, truth bool) string {
 			l, r, op = r, l, flipOp(op)
 		}
 		if cs, ok := isIdx(l); ok {
-			switch rp := c.Path(r, nil); {
+			switch rp := c.Path(r, c.condEnv); {
 			case rp == "-1" && op == token.EQL, rp == "0" && op == token.LSS:
 				return fmt.Sprintf("%s=%v", cs, !truth)
 			case rp == "-1" && (op == token.NEQ || op == token.GTR), rp == "0" && op == token.GEQ:
@@ -592,7 +613,7 @@ func (c *Ctx) canonCond(cond ssa.Value, truth bool) string {
 	// comparisons: one spelling per relation — negation folded into the operator, > and >= flipped into < and <=,
 	// constants of == / != on the right; the rendered condition is then always "=true"
 	if bo, ok := cond.(*ssa.BinOp); ok && isCmp(bo.Op) {
-		l, r, op := c.Path(bo.X, nil), c.Path(bo.Y, nil), bo.Op
+		l, r, op := c.Path(bo.X, c.condEnv), c.Path(bo.Y, c.condEnv), bo.Op
 		if !truth {
 			op = negOp(op)
 		}
@@ -608,5 +629,5 @@ func (c *Ctx) canonCond(cond ssa.Value, truth bool) string {
 		}
 		return fmt.Sprintf("(%s %s %s)=true", l, op.String(), r)
 	}
-	return fmt.Sprintf("%s=%v", c.Path(cond, nil), truth)
+	return fmt.Sprintf("%s=%v", c.Path(cond, c.condEnv), truth)
 }
